@@ -1,5 +1,5 @@
 import Q1t.Proofs.AmpComplex
-import Q1t.Proofs.SimGFProb
+import Q1t.Proofs.SimGFStep
 /-!
 C01: the intended instance of the arithmetic hypotheses of the law.  Amplitudes `ℂ`, angles `ℝ`;
 `normSq a = a·ā`, `rsqrt w = 1/√(re w)`, `min1 w = min(re w, 1) + i·im w`, `weightsOk` = "all weights are
@@ -126,5 +126,25 @@ theorem lawfulWeights : LawfulWeights ℂ nzC where
 /-- the arithmetic hypotheses of `SimGF.Hyps` hold for `ℂ` -/
 theorem arith_hyps_complex : LawfulAmp ℂ ℝ ∧ LawfulSim ℂ ℝ nzC ∧ LawfulWeights ℂ nzC :=
   ⟨AmpComplex.lawful, lawfulSim, lawfulWeights⟩
+
+/-- `Hyps` is inhabited — degenerately: on a register of 0 qubits with no valid gate placement the gate
+hypotheses are vacuous, so this only shows that the five hypotheses are jointly consistent with the complex
+arithmetic.  A non-degenerate inhabitant needs `GateSemOK`/`GateRuns` for an actual gate set, i.e. the theorems
+of C04 (routes = embedded matrix) and C05 (matrix = documented unitary). -/
+theorem hyps_zero_qubits : Hyps ℂ ℝ nzC 0 (fun _ _ => False) where
+  amp := AmpComplex.lawful
+  sim := lawfulSim
+  wts := lawfulWeights
+  sem :=
+    { mat := fun _ _ h => h.elim
+      vec := fun _ _ h => h.elim
+      iso := fun _ _ h => h.elim
+      basis := fun q hq => absurd hq (Nat.not_lt_zero q)
+      hh := fun q hq => absurd hq (Nat.not_lt_zero q)
+      ssdg := fun q hq => absurd hq (Nat.not_lt_zero q) }
+  runs :=
+    { arity := fun _ _ h => h.elim
+      mat := fun _ _ h => h.elim
+      vec := fun _ _ h => h.elim }
 
 end Q1t.Sim.SimGFComplex
